@@ -53,9 +53,13 @@ func (b *buffer) validTag() bool {
 	return b.pos < b.len && b.len > 0
 }
 
-// readTagValue discards until tag.ValueOffset and reads length of tag
-func (ir *ifdReader) readTagValue() (buf []byte, err error) {
-	t := ir.buffer.currentTag()
+// readTagValue returns the value of tag t: it discards until t.ValueOffset and reads the length of the tag
+func (ir *ifdReader) readTagValue(t Tag) (buf []byte, err error) {
+	if t.IsEmbedded() {
+		// the value lies in the entry's own value slot
+		t.EmbeddedValue(ir.buffer.buf[:4])
+		return ir.buffer.buf[:t.Size()], nil
+	}
 	if err := ir.discard(int(t.ValueOffset) - int(ir.po)); err != nil {
 		return nil, err
 	}
